@@ -14,6 +14,9 @@ EXPLANATION = ("Structural necessary conditions of C01 decided over every CFG pa
                "node's own goal). Decides these shapes, not equality with a reference interpreter on all programs.")
 RULES = ("R9 = C06/R4 (running set threaded through unify), R10 = C10/R3 (id discipline); R1 persistent sets; R2 provenance of the set/parent/goal arguments at the clause loop, And tail, Or tail and "
          "make_solution_node arms; R3 clause order; R4 left-to-right; R5 re-entry order; R6 answer provenance; R7 clause count")
+WITNESSES = {"W1SharedSetIsImmutable": "a substitution set shared through Rc cannot be pushed to (E0596)",
+             "W1bBoundTermIsImmutable": "a bound term behind Rc<Unifiable> cannot be overwritten (E0594)",
+             "W2SolverHoldsSharedKb": "SolutionNode.kb is a shared reference: the solver cannot insert into the knowledge base (E0596)"}
 TRUSTED = ["rustc nightly HIR/MIR construction", "std Vec/HashMap/Rc semantics",
            "bounded unrolling: loop bodies walked up to 3 times per path"]
 
